@@ -74,7 +74,9 @@ fn subsets(ctx: &mut Ctx) {
             // Every order of enabling the rest, with a serialize/load between any two steps (chosen by `cut`).
             for (oi, order) in ORDERS.iter().enumerate() {
                 if (oi + subset + c) % 2 == 1 && ctx.quick() { continue; }
+                if cfg!(miri) && (oi + subset + c) % 6 != 0 { continue; }
                 for cut in 0..4usize {
+                    if cfg!(miri) && cut != (subset + oi) % 4 { continue; }
                     let mut cur = loaded.clone();
                     let mut ok = true;
                     for (step, &k) in order.iter().enumerate() {
@@ -128,7 +130,7 @@ fn composites(ctx: &mut Ctx) {
         let mut rng: Rng = ctx.rng(0xC19_800 + c as u64);
         // Sparse vector: `high` without supports / with any subset of what was written.
         let n = match c % 4 { 0 => rng.below(50), 1 => 1000 + rng.below(5000), 2 => 1usize << (20 + rng.below(30)), _ => 1 + rng.below(100000) };
-        let mcount = std::cmp::min(n, match c % 3 { 0 => rng.below(10), 1 => rng.below(400), _ => rng.below(3000) });
+        let mcount = std::cmp::min(n, match c % 3 { 0 => rng.below(10), 1 => rng.below(if cfg!(miri) { 20 } else { 400 }), _ => rng.below(if cfg!(miri) { 30 } else { 3000 }) });
         // No values in a huge universe would need universe/2 bits of buckets (allocation failure aborts the process).
         let mcount = if n > (1 << 24) { std::cmp::max(mcount, 1) } else { mcount };
         let pos = gen::sparse_positions(&mut rng, n, mcount, 5, gen::LAYOUTS[c % 6]);
@@ -136,6 +138,7 @@ fn composites(ctx: &mut Ctx) {
         if let Ok(sv) = mk::sparse_set(n, &m.ones) {
             let bytes = ser(&sv);
             for keep in 0..8usize {
+                if cfg!(miri) && keep % 3 != c % 3 { continue; }
                 let rewritten = (|| -> Result<Vec<u8>, String> {
                     let mut w = Walker::new(&bytes);
                     let mut out = Vec::new();
@@ -164,8 +167,8 @@ fn composites(ctx: &mut Ctx) {
             }
         }
         // Wavelet matrix and core: every level without supports / with a random subset per level.
-        let len = match c % 3 { 0 => rng.below(6), 1 => rng.below(300), _ => 64 + rng.below(3) };
-        let width = 1 + rng.below(9);
+        let len = match c % 3 { 0 => rng.below(6), 1 => rng.below(if cfg!(miri) { 20 } else { 300 }), _ => if cfg!(miri) { 9 } else { 64 + rng.below(3) } };
+        let width = 1 + rng.below(if cfg!(miri) { 3 } else { 9 });
         let v: Vec<u64> = (0..len).map(|_| rng.next_u64() & ((1u64 << width) - 1)).collect();
         let wm = WaveletMatrix::from(v.clone());
         let core = WMCore::from(v.clone());
